@@ -415,6 +415,28 @@ func c12d(c *Ctx, v *variants.Variant) {
 			}
 			continue
 		case !relevant:
+			// `if fail != invert || pos.offset < max.offset { return }`: a path taken exactly when the result does not
+			// count or lies before the farthest position, on which nothing is recorded
+			excluded := false
+			for _, f := range p.facts() {
+				ds := splitTop(f, "||")
+				if len(ds) < 2 {
+					continue
+				}
+				all2 := true
+				for _, d := range ds {
+					d = minParens(d)
+					if d != fail+"!=p.maxFailInvertExpected" && d != "p.maxFailInvertExpected!="+fail && d != pos+".offset<p.maxFailPos.offset" && d != "p.maxFailPos.offset>"+pos+".offset" {
+						all2 = false
+					}
+				}
+				if all2 {
+					excluded = true
+				}
+			}
+			if excluded && len(all) == 0 {
+				continue
+			}
 			bad = append(bad, "a path does not compare "+fail+" with p.maxFailInvertExpected")
 			continue
 		}
